@@ -805,8 +805,8 @@ func main() {
 	}
 	runRandom(r, rp, rng)
 	runConcurrent(r, rp, rng)
-	r.Set("probe_keys", len(probeKeys))
-	r.Set("probe_ranges", len(probeRanges))
+	r.Set("probe_keys_per_observation", fmt.Sprint(len(probeKeys))) // strings: the driver sums numeric extras over shards
+	r.Set("probe_ranges_per_observation", fmt.Sprint(len(probeRanges)))
 	r.Floor(int64(r.Pick(3000, 12000)))
 	r.Finish()
 }
